@@ -41,6 +41,7 @@ type MAlloc struct {
 	EverBound           bool
 	RejectReason        string
 	ReleaseSent         bool // the shim sent a release for it (in flight or processed)
+	NoEcho              bool // released by the shim with TIMEOUT / PREEMPTED_BY_SCHEDULER: the core sends nothing back
 	ReleasedDuringSwap  bool // the shim released the ask while the core had it linked to a placeholder as its replacement
 	WasBound            bool // was bound when the shim sent its release
 	PreemptAnnounced    bool
@@ -461,6 +462,8 @@ func (s *Shim) onReleased(r *si.AllocationRelease) {
 				// the core answers the shim's own message about this key (a confirmation it could no longer match
 				// with a replacement is handled as an ordinary release by the RM, and echoed as one)
 				s.faults["probe_confirmation_echoed_as_release"]++
+			} else if m.NoEcho {
+				s.violate("C04", "release-echo-of-confirmation", "", "STOPPED_BY_RM announced for %s after the shim released it with a confirmation type, which the core does not answer (%s)", m.Key, m.RejectReason)
 			} else if !m.ReleaseSent && !s.appGone(m.App) && !s.nodeGone(m.Node) {
 				s.violate("C04", "release-not-bound", "STOPPED_BY_RM", "release of %s which is neither bound nor outstanding", m.Key)
 			}
